@@ -62,12 +62,7 @@ type c07CloseGate struct {
 
 func (p *c07Pipe) Close() error {
 	if g := p.closeGate.Load(); g != nil && g.armed.Load() && !p.BufConn.IsClosed() {
-		free := true
-		if g.reg != nil {
-			if free = g.reg.mu.TryLock(); free {
-				g.reg.mu.Unlock()
-			}
-		}
+		free := g.reg == nil || c07RegLockFree(g.reg)
 		if free {
 			g.inClose.Add(1)
 			<-g.release
@@ -232,6 +227,15 @@ type c07World struct {
 	direct   bool // UpdateControlConnectionAuth was called directly (bypasses the eviction done by handleHandshake)
 }
 
+// Client ids over the int64 range: ordinary 8-digit ids, ids that differ by 2^32 and 2^31,
+// ids next to MaxInt64, small ids. The world number selects the set.
+var c07ClientIDs = [][]int64{
+	{12345678, 12345678 + 1<<32, 12345678 + 1<<31},
+	{10000001, 99999999, 55555555},
+	{1<<63 - 1, 1<<63 - 1 - 1<<32, 7},
+	{87654321 + 3<<32, 87654321, 87654321 + 1<<33},
+}
+
 var (
 	c07IDMgrOnce sync.Once
 	c07IDMgr     *idgen.IDManager
@@ -255,7 +259,7 @@ func c07NewWorld(run *vk.Run, nslots, nclients, ctlCap, cloudMode int, pattern u
 	}
 	w := &c07World{run: run, sm: sm, cancel: cancel, slots: make([]*c07Conn, nslots), all: map[string]*c07Conn{}, byID: map[string][]*c07Conn{}, prevReg: map[*c07Conn]bool{}, reported: map[string]bool{}}
 	for i := 0; i < nclients; i++ {
-		w.clients = append(w.clients, int64(1001+i))
+		w.clients = append(w.clients, c07ClientIDs[int(c07WorldSeq.Load())%len(c07ClientIDs)][i])
 	}
 	w.base = sm.GetConnectionStats()
 	w.seq = int(c07WorldSeq.Add(1)) * 1000
@@ -481,7 +485,7 @@ func (w *c07World) apply(op c07Op) bool {
 		var revived []*c07Conn
 		if !w.conc {
 			any := false
-			for _, k := range sm.clientRegistry.List() {
+			for _, k := range sm.GetClientRegistry().List() {
 				if cc := w.ownerOf(k); cc != nil && (cc.aged.Load() || cc.hbAfter.Load()) {
 					any = true
 					if cc.hbAfter.Load() {
@@ -500,7 +504,7 @@ func (w *c07World) apply(op c07Op) bool {
 		}
 		var agedBefore []agedConn
 		if !w.conc {
-			for _, k := range sm.clientRegistry.List() {
+			for _, k := range sm.GetClientRegistry().List() {
 				if cc := w.ownerOf(k); cc != nil && cc.aged.Load() && !cc.shared.Load() {
 					agedBefore = append(agedBefore, agedConn{cc, k.Authenticated})
 				}
@@ -577,7 +581,7 @@ func (w *c07World) apply(op c07Op) bool {
 		return false // a refused handshake on a registered connection changes nothing
 	}
 	if !w.conc && reg == nil && (op.Kind == "fail" || op.Kind == "login" || op.Kind == "tlogin") {
-		if cp := sm.getMaxControlConnections(); cp > 0 && sm.clientRegistry.Count() >= cp {
+		if cp := sm.getMaxControlConnections(); cp > 0 && sm.GetClientRegistry().Count() >= cp {
 			w.run.Count("register_at_cap", 1)
 		}
 	}
@@ -638,7 +642,7 @@ func (w *c07World) apply(op c07Op) bool {
 		// (a connection is registered as a tunnel at most once: after TunnelOpen the real read loop
 		// leaves packet mode, so a second registration under the same connection id cannot happen)
 		first := !c.tunnel.Swap(true)
-		sm.clientRegistry.Unregister(c.connID)
+		sm.GetClientRegistry().Unregister(c.connID)
 		// a connection converted to a tunnel is no control connection any more: no control lookup
 		// returns it (only its owner could register it again, and the owner is here)
 		if !c.shared.Load() && sm.GetControlConnection(c.connID) != nil {
@@ -672,8 +676,8 @@ func (w *c07World) apply(op c07Op) bool {
 		for _, id := range w.clients {
 			_ = sm.GetControlConnectionByClientID(id)
 		}
-		_ = sm.clientRegistry.List()
-		_ = sm.clientRegistry.ListAuthenticated()
+		_ = sm.GetClientRegistry().List()
+		_ = sm.GetClientRegistry().ListAuthenticated()
 		_ = sm.GetConnectionStats()
 	case "apiclose":
 		// CloseConnection from outside the connection's own read loop (API / other goroutine)
@@ -719,7 +723,7 @@ func (w *c07World) viol(sig string, op c07Op, extra map[string]any) {
 //	   transport closed by the server.
 func (w *c07World) check(op c07Op) {
 	sm := w.sm
-	reg := sm.clientRegistry
+	reg := sm.GetClientRegistry()
 	inList := map[string]*ControlConnection{}
 	for _, k := range reg.List() {
 		inList[k.ConnID] = k
@@ -763,8 +767,8 @@ func (w *c07World) check(op c07Op) {
 		}
 	}
 	ids := append([]int64(nil), w.clients...)
-	reg.mu.RLock()
-	for k := range reg.clientIDMap {
+	_, indexed := c07IndexAudit(reg)
+	for _, k := range indexed {
 		known := false
 		for _, x := range ids {
 			if x == k {
@@ -775,7 +779,6 @@ func (w *c07World) check(op c07Op) {
 			ids = append(ids, k)
 		}
 	}
-	reg.mu.RUnlock()
 	for _, x := range ids {
 		k := sm.GetControlConnectionByClientID(x)
 		if k == nil {
@@ -904,10 +907,11 @@ func (w *c07World) finish() {
 	}
 	w.check(c07Op{Kind: "final", Slot: -1, Cli: -1})
 	st := w.sm.GetConnectionStats()
-	reg := w.sm.clientRegistry
-	reg.mu.RLock()
-	idx := len(reg.clientIDMap)
-	reg.mu.RUnlock()
+	reg := w.sm.GetClientRegistry()
+	idx, _ := c07IndexAudit(reg)
+	if idx < 0 {
+		idx = 0 // index not inspectable on this tree: the lookups in check() still cover it
+	}
 	if st != w.base || reg.Count() != 0 || w.sm.GetActiveChannels() != 0 || idx != 0 {
 		w.run.Violation("C07:counts-not-back-to-baseline", map[string]any{"trace": w.tail(), "baseline": w.base, "now": st, "control_count": reg.Count(), "client_index_entries": idx})
 	}
@@ -1141,7 +1145,7 @@ func TestVerifC07RegistryConcurrent(t *testing.T) {
 		for ph := 0; ph < 3 && ok; ph++ {
 			if regOnly {
 				ra := run.Rand(fmt.Sprintf("r%d-p%d-age", rd, ph))
-				for _, k := range w.sm.clientRegistry.List() {
+				for _, k := range w.sm.GetClientRegistry().List() {
 					if ra.Intn(3) == 0 {
 						c07SetLastActive(k, time.Now().Add(-3*time.Hour))
 					}
@@ -1199,7 +1203,7 @@ func TestVerifC07RegistryConcurrent(t *testing.T) {
 			}
 			w.check(bar)
 			run.Count("barriers", 1)
-			shape := fmt.Sprintf("reg=%d auth=%d idx=%d", w.sm.clientRegistry.Count(), len(w.sm.clientRegistry.ListAuthenticated()), w.indexEntries())
+			shape := fmt.Sprintf("reg=%d auth=%d idx=%d", w.sm.GetClientRegistry().Count(), len(w.sm.GetClientRegistry().ListAuthenticated()), w.indexEntries())
 			run.Distinct(fmt.Sprintf("%d|%s", ph, shape))
 			w.observeDuplicates()
 		}
@@ -1221,10 +1225,48 @@ func TestVerifC07RegistryConcurrent(t *testing.T) {
 }
 
 func (w *c07World) indexEntries() int {
-	reg := w.sm.clientRegistry
-	reg.mu.RLock()
-	defer reg.mu.RUnlock()
-	return len(reg.clientIDMap)
+	n, _ := c07IndexAudit(w.sm.GetClientRegistry())
+	return n
+}
+
+// c07IndexAudit reads the registry's private client-id index by reflection, so that the harness
+// keeps compiling when the index is re-keyed or renamed: n = number of entries (-1 if there is no
+// map field "clientIDMap"), ids = the keys (if integers) and the ClientID of every indexed
+// connection. Only called at quiescent points (no registry operation in flight).
+func c07IndexAudit(reg *ClientRegistry) (n int, ids []int64) {
+	f := reflect.ValueOf(reg).Elem().FieldByName("clientIDMap")
+	if !f.IsValid() || f.Kind() != reflect.Map {
+		return -1, nil
+	}
+	n = f.Len()
+	for it := f.MapRange(); it.Next(); {
+		if k := it.Key(); k.CanInt() {
+			ids = append(ids, k.Int())
+		} else if k.CanUint() {
+			ids = append(ids, int64(k.Uint()))
+		}
+		if v := it.Value(); v.Kind() == reflect.Ptr && !v.IsNil() && v.Elem().Kind() == reflect.Struct {
+			if cf := v.Elem().FieldByName("ClientID"); cf.IsValid() && cf.CanInt() {
+				ids = append(ids, cf.Int())
+			}
+		}
+	}
+	return n, ids
+}
+
+// c07RegLockFree reports whether the registry's lock (private field "mu", if it is a
+// sync.RWMutex) is free right now; true if there is no such field.
+func c07RegLockFree(reg *ClientRegistry) bool {
+	f := reflect.ValueOf(reg).Elem().FieldByName("mu")
+	if !f.IsValid() || f.Type() != reflect.TypeOf(sync.RWMutex{}) {
+		return true
+	}
+	mu := (*sync.RWMutex)(unsafe.Pointer(f.UnsafeAddr()))
+	if mu.TryLock() {
+		mu.Unlock()
+		return true
+	}
+	return false
 }
 
 // checkTransportOnly: a connection the harness saw registered, that is no longer
@@ -1232,7 +1274,7 @@ func (w *c07World) indexEntries() int {
 // had its transport closed by the server.
 func (w *c07World) checkTransportOnly(op c07Op) {
 	in := map[string]*ControlConnection{}
-	for _, k := range w.sm.clientRegistry.List() {
+	for _, k := range w.sm.GetClientRegistry().List() {
 		in[k.ConnID] = k
 	}
 	w.mu.Lock()
@@ -1252,7 +1294,7 @@ func (w *c07World) checkTransportOnly(op c07Op) {
 // registered connections are authenticated as the same client.
 func (w *c07World) observeDuplicates() {
 	seen := map[int64]int{}
-	for _, k := range w.sm.clientRegistry.ListAuthenticated() {
+	for _, k := range w.sm.GetClientRegistry().ListAuthenticated() {
 		seen[k.ClientID]++
 	}
 	for _, n := range seen {
